@@ -100,7 +100,9 @@ def run(ctx):
     shapes = [["A.qml"], ["./A.qml"], ["sub/B.qml"], ["sub/./B.qml"], ["./sub/deep/C.qml"], ["sub/../A.qml"], ["../outside/D.qml"], ["ABS:A.qml"],
               ["A.qml", "sub/B.qml"], ["MyDialog.qml", "sub/deep/C.qml"], ["sub/B.qml", "A.qml", "./MyDialog.qml"], ["Mixed_Case9.qml"],
               # stems with dots: the type (and output) name is the file name without its LAST extension
-              ["Settings.v2.qml"], ["MyDialog.qml", "MyDialog.ui.qml"], ["sub/Pane.left.qml", "sub/B.qml"]]
+              ["Settings.v2.qml"], ["MyDialog.qml", "MyDialog.ui.qml"], ["sub/Pane.left.qml", "sub/B.qml"],
+              # one escaping or absolute source among confined ones: the whole run is refused
+              ["A.qml", "../outside/D.qml"], ["../outside/D.qml", "sub/B.qml"], ["sub/B.qml", "ABS:A.qml"], ["ABS:MyDialog.qml", "A.qml", "sub/B.qml"]]
     outs = [None, "out", "out/nested/x", "./out", "ABSOUT", "../outside/o2"]
     terms, meta = [], []
     k = 0
@@ -167,7 +169,7 @@ def run(ctx):
     s_kill(ctx, cli, work, rng)
     shutil.rmtree(work, ignore_errors=True)
     ctx.coverage["compared_with_model"] = len(terms)
-    ctx.coverage["rule"] = ("15 source-argument shapes (plain, ./, nested, interior ., parent-escaping, outside, absolute, several sources, mixed case, dotted stems) x 6 output directories "
+    ctx.coverage["rule"] = ("19 source-argument shapes (plain, ./, nested, interior ., parent-escaping, outside, absolute, several sources, mixed case, dotted stems, escaping sources among confined ones) x 6 output directories "
                             "(none, relative, nested, ./, absolute, parent-escaping) x lowercase on/off x dynamic binding on/off (half sampled in the quick tier); re-run, edit "
                             "sequences, strace of write-type system calls, kill at system-call index N")
     if not ctx.model_ok:
